@@ -183,7 +183,7 @@ let run_line (line : string) : string =
       | M.RBytes (M.Fail f) -> fail_string f
       | M.RValue (M.Ok (v, rest)) -> "ok\t" ^ string_of_value v ^ "\t" ^ hex_of_bytes rest
       | M.RValue (M.Fail f) -> fail_string f
-      | M.RNum n -> "ok\t" ^ hex_of_n n
+      | M.RNum n -> "ok\t" ^ hex_of_n n ^ "\tkept"      (* a checksum service only reads its buffer *)
       | M.RMsg (M.Ok (fs, buf)) -> "ok\t" ^ string_of_value (M.VObj (tid, fs)) ^ "\t" ^ hex_of_bytes buf
       | M.RMsg (M.Fail f) -> fail_string f
       | M.RZero (Some fs) -> "ok\t" ^ string_of_value (M.VObj (tid, fs))
